@@ -18,7 +18,9 @@ class Batch:
         self.cases = cases
         self.inputsets = inputsets  # [('explicit', [tuple,...]) | ('product', [alphaidx,...]) | ('range32',)]
         self.alphas = list(alphas)  # [[int,...]]
-        self.imports = list(imports)  # [(mod, name, params, result)] in import-index order (function imports only)
+        self.imports = list(imports)  # [(mod, name, params, result[, csymbol])] in import-index order (function imports only)
+        self.externs = []             # [(mod, name, 'table', (size, max)) | (.., 'global', (type, bits)) | (.., 'memory', (pages, max, shared))]
+        self.post_translate = None    # optional callable(batch, workdir) run after w2c2 (e.g. read C symbols from the header)
 
 
 def _arg_expr(t, k):
@@ -39,8 +41,9 @@ def _ret_wrap(t, e):
 def gen_driver(batch, main='pure', extra=''):
     out = ['#include "m.h"', '#include "lockstep.h"', extra]
     # imported host functions (C symbols <mod>__<name>)
-    for idx, (mod, nm, params, result) in enumerate(batch.imports):
-        sym = '%s__%s' % (mod, nm)
+    for idx, imp in enumerate(batch.imports):
+        mod, nm, params, result = imp[:4]
+        sym = imp[4] if len(imp) > 4 and imp[4] else '%s__%s' % (mod, nm)
         ps = ''.join(',%s a%d' % (CT[t], k) for k, t in enumerate(params))
         conv = []
         for k, t in enumerate(params):
@@ -86,8 +89,33 @@ def gen_driver(batch, main='pure', extra=''):
     for c in batch.cases:
         rows.append('{"%s", (void*)m_%s, tr%d, %d, "%s", \'%s\', %d, %d}' % (c.name, c.name, sigs[(c.params, c.result)], len(c.params), c.params, c.result, c.inputset, c.direct_op))
     out.append('static const ls_func funcs[] = {\n%s\n};' % ',\n'.join(rows))
+    pre = ''
+    if batch.externs:
+        decl, init, rimpl, rmem, rtab, rglob = [], [], [], [], [], []
+        for k, (mod, nm, kind, spec) in enumerate(batch.externs):
+            cond = '!strcmp(m,"%s")&&!strcmp(n,"%s")' % (mod, nm)
+            if kind == 'table':
+                decl.append('static wasmTable ext%d; static wr_table* rext%d;' % (k, k))
+                init.append('wasmTableAllocate(&ext%d, %d, %d); rext%d = wr_table_new(%d, %d, 1);' % (k, spec[0], spec[1], k, spec[0], spec[1]))
+                rimpl.append('if (%s) return &ext%d;' % (cond, k)); rtab.append('if (%s) return rext%d;' % (cond, k))
+            elif kind == 'global':
+                ct = CT[spec[0]]
+                decl.append('static %s ext%d; static wr_global* rext%d;' % (ct, k, k))
+                init.append('{ uint64_t b = 0x%xull; memcpy(&ext%d, &b, sizeof ext%d); rext%d = wr_global_new(%d, b, 1); }' % (spec[1], k, k, k, {'i': 0x7f, 'I': 0x7e, 'f': 0x7d, 'F': 0x7c}[spec[0]]))
+                rimpl.append('if (%s) return &ext%d;' % (cond, k)); rglob.append('if (%s) return rext%d;' % (cond, k))
+            else:
+                decl.append('static wasmMemory* ext%d; static wr_memory* rext%d;' % (k, k))
+                init.append('ext%d = wasmMemoryAllocate(%d, %d, %d); rext%d = wr_memory_new(%d, %d, 1, %d);' % (k, spec[0], spec[1], 1 if spec[2] else 0, k, spec[0], spec[1], 1 if spec[2] else 0))
+                rimpl.append('if (%s) return ext%d;' % (cond, k)); rmem.append('if (%s) return rext%d;' % (cond, k))
+        out += decl
+        out.append('static void* gen_resolve(const char* m, const char* n) { %s return NULL; }' % ' '.join(rimpl))
+        out.append('static wr_memory* gen_rmem(void* c, const char* m, const char* n) { (void)c; %s return NULL; }' % ' '.join(rmem))
+        out.append('static wr_table* gen_rtab(void* c, const char* m, const char* n) { (void)c; %s return NULL; }' % ' '.join(rtab))
+        out.append('static wr_global* gen_rglob(void* c, const char* m, const char* n) { (void)c; %s return NULL; }' % ' '.join(rglob))
+        out.append('static wr_env gen_env;')
+        pre = '%s gen_env.resolve_memory = gen_rmem; gen_env.resolve_table = gen_rtab; gen_env.resolve_global = gen_rglob; ls_user_resolve = gen_resolve; ls_user_env = &gen_env;' % ' '.join(init)
     if main == 'pure':
-        out.append('int main(int argc, char** argv) { return ls_main_pure(argc, argv, funcs, %d, sets, alphas); }' % len(batch.cases))
+        out.append('int main(int argc, char** argv) { %s return ls_main_pure(argc, argv, funcs, %d, sets, alphas); }' % (pre, len(batch.cases)))
     return '\n'.join(out) + '\n'
 
 
@@ -138,6 +166,8 @@ def run_batch(batch, cc='clang', cflags=('-O0',), w2c2=None, w2c2_args=(), timeo
         rc, err = translate(batch.wasm, wd, w2c2, w2c2_args)
         if rc != 0:
             return {'stage': 'translate', 'rc': rc, 'stderr': err[-2000:], 'done': False}
+        if batch.post_translate:
+            batch.post_translate(batch, wd)
         with open(os.path.join(wd, 'driver.c'), 'w') as f:
             f.write(gen_driver(batch, extra=driver_extra))
         rc, err, cmd = compile_driver(wd, cc, cflags, defines=defines)
